@@ -611,9 +611,9 @@ class TempoBackend(BaseTempoBackend):
         """
         ToDo
         """
-        self._step = 0
         self.initialize_mps_mpo()
         self._state = self._initial_state
+        self._step = 0
         return self._step, copy(self._state)
 
     def compute_step(self) -> Tuple[int, ndarray]:
@@ -621,8 +621,10 @@ class TempoBackend(BaseTempoBackend):
         ToDo
         """
         prop_1, prop_2 = self._propagators(self._step)
+        # the step only counts once it succeeded (the influence functions
+        # evaluate user supplied functions and may raise)
+        self._state = self.compute_system_step(self._step + 1, prop_1, prop_2)
         self._step += 1
-        self._state = self.compute_system_step(self._step, prop_1, prop_2)
         return self._step, copy(self._state)
 
 
@@ -737,9 +739,9 @@ class MeanFieldTempoBackend():
 
     def initialize(self) -> Tuple[int, ndarray, complex]:
         """Initialize each TEMPO instance. """
-        self._step = 0
         for backend in self._backend_list:
             backend.initialize_mps_mpo()
+        self._step = 0
         return self._step, deepcopy(self._state_list), self._field
 
     def compute_step(self) -> Tuple[int, List[ndarray], complex]:
@@ -757,15 +759,24 @@ class MeanFieldTempoBackend():
             propagators(current_step, current_field, current_field_derivative) \
                 for propagators, state in \
                     zip(self._propagators_list, current_state_list)]
-        # Use tempo tensor network to compute each system state
-        next_state_list = [
-            backend.compute_system_step(next_step, *prop_tuple) \
-                for backend, prop_tuple in \
-                    zip(self._backend_list, prop_tuple_list)]
-        # Use field evolution function to compute next field
-        next_field = self._compute_field(current_step,
-                                         current_state_list, current_field,
-                                         next_state_list)
+        # A user supplied function (bath correlations, field equation) that
+        # raises midway must leave all systems at the start of this step
+        saved_networks = [(backend._mps.copy(), backend._mpo.copy()) \
+                for backend in self._backend_list]
+        try:
+            # Use tempo tensor network to compute each system state
+            next_state_list = [
+                backend.compute_system_step(next_step, *prop_tuple) \
+                    for backend, prop_tuple in \
+                        zip(self._backend_list, prop_tuple_list)]
+            # Use field evolution function to compute next field
+            next_field = self._compute_field(current_step,
+                                             current_state_list, current_field,
+                                             next_state_list)
+        except BaseException:
+            for backend, (mps, mpo) in zip(self._backend_list, saved_networks):
+                backend._mps, backend._mpo = mps, mpo
+            raise
         self._state_list = next_state_list
         self._field = next_field
         self._step = next_step
